@@ -132,6 +132,9 @@ def toOp (l : Line) : Option Op :=
   | "lastcas" => some (.lastCas c)
   | "keys" => some (.keys c)
   | "draw" => some .draw
+  | "wsd" => some (.wsd c k (l.str "path") (l.nat "cas") (l.get? "v"))
+  | "sdi" => some (.sdi c k (l.str "path") (l.nat "cas") (l.get? "v"))
+  | "gsd" => some (.gsd c k (l.str "path"))
   | "restart" => some (.restart (l.nat "hlc"))
   | _ => none
 
@@ -192,7 +195,7 @@ def fmtResp (l : Line) (resp : Resp) : String :=
     | "wcas" | "remove" | "updx" | "wwx" | "wtx" | "wrx" | "uxdb" => s!"{r} cas={o.cas}{actualS o}"
     | "wsd" => s!"{r} cas={o.cas}{actualS o}"
     | "touch" | "setx" | "draw" => s!"{r} cas={o.cas}"
-    | "gat" => s!"{r} cas={o.cas} v{optS o.val}"
+    | "gat" | "gsd" => s!"{r} cas={o.cas} v{optS o.val}"
     | "incr" => s!"{r} n={if o.err = .ok then o.n else 0}"
     | "rmx" | "swm" | "dwm" | "sdi" => s!"{r}{actualS o}"
     | "purge" => s!"{r} n={o.n}"
